@@ -145,6 +145,7 @@ def cases(tier):
     # the aligned types of the SIMD configurations have their own inverse / determinant code (simd/matrix.h for mat4, the aligned branch of inv3x3 built on
     # the SIMD cross product for mat3): the same definitions must hold there
     cs += float_cases('float', 'aligned_highp', CFG_SSE2)
+    cs += float_cases('double', 'aligned_highp', CFG_SSE2)          # no SIMD specialisation for double at this level: the aligned branch runs on the generic vec4 cross overload
     if tier == 'thorough':
         cs += float_cases('float', 'aligned_mediump', CFG_SSE2)
         cs += float_cases('float', 'aligned_highp', CFG_AVX2)
